@@ -9,13 +9,31 @@ from common import MachineryError, ncores
 
 LOOP = ["M", "K", "N"]
 SPACES = [[], ["N"], ["K"], ["M"], ["N", "M"]]
-COMPS = ["F0", "F1"]
+COMPS = ["F0", "F1", "S0", "I0"]        # functional components of every configuration: two compute units, a sequencer, an intersector
+MC_COMPS = {"quick": ["F0", "S0"], "thorough": ["F0", "F1", "S0"], "wide": ["F0", "S0", "I0"]}
+
+
+def comp_arch(f):
+    if f.startswith("S"):
+        return "    - name: %s\n      class: Sequencer\n      attributes:\n        num_ranks: 3\n" % f
+    if f.startswith("I"):
+        return "    - name: %s\n      class: Intersector\n      attributes:\n        type: two-finger\n" % f
+    return "    - name: %s\n      class: compute\n      attributes:\n        type: mul\n" % f
+
+
+def comp_bind(f, d):
+    if f.startswith("S"):
+        return "  - component: %s\n    bindings:\n%s" % (f, "".join("    - rank: %s\n" % r for r in d["loop"]))
+    if f.startswith("I"):
+        return "  - component: %s\n    bindings:\n    - rank: %s\n" % (f, d["loop"][-1])
+    return "  - component: %s\n    bindings:\n    - op: mul\n" % f
+
 CFGS = ["cA", "cB"]
 
 MC_CFG = """CONSTANTS Configs = {"cA", "cB"}
           Loops <- MCLoops
           Spaces <- MCSpaces
-          Comps = {"F0", "F1"}
+          Comps = {%s}
           MaxLen = %d
 SPECIFICATION Spec
 INVARIANT OrderedPartition
@@ -36,11 +54,11 @@ def yaml_of(hist):
     st = "".join("    T%d:\n      space: [%s]\n      time: [%s]\n" % (i, ", ".join(d["space"]), ", ".join(r for r in d["loop"] if r not in d["space"]))
                  for i, d in enumerate(hist))
     arch = "".join("  %s:\n  - name: System\n    attributes:\n      clock_frequency: 3\n    local:\n" % c +
-                   "".join("    - name: %s\n      class: compute\n      attributes:\n        type: mul\n" % f for f in COMPS) for c in CFGS)
+                   "".join(comp_arch(f) for f in COMPS) for c in CFGS)
     binds = ""
     for i, d in enumerate(hist):
         binds += "  T%d:\n  - config: %s\n    prefix: tmp/T%d\n" % (i, d["cfg"], i)
-        binds += "".join("  - component: %s\n    bindings:\n    - op: mul\n" % f for f in d["comps"])
+        binds += "".join(comp_bind(f, d) for f in d["comps"])
     return "einsum:\n  declaration:\n%s  expressions:\n%smapping:\n  loop-order:\n%s  spacetime:\n%sarchitecture:\n%sbindings:\n%s" % (decl, exprs, lo, st, arch, binds)
 
 
@@ -90,9 +108,9 @@ def replay_many(hists, full=False):
         return list(ex.map(_safe, [fn] * len(hists), hists, chunksize=16))
 
 
-def histories_from_tlc(wd, length, simulate=None, seed=0):
+def histories_from_tlc(wd, length, simulate=None, seed=0, comps="quick"):
     """Histories are Fusion.tla behaviours: exhaustive BFS (small length) or -simulate."""
-    cfg = MC_CFG % (length, "INVARIANT EmitHist")
+    cfg = MC_CFG % (", ".join('"%s"' % c for c in MC_COMPS[comps]), length, "INVARIANT EmitHist")
     if simulate:
         lines, stats = tlc.run("MC_Fusion", cfg, wd, workers=1, simulate="num=%d" % simulate, depth=length + 1, seed=seed, tag="gen%d" % length, timeout=600)
     else:
